@@ -38,7 +38,7 @@ BOUNDS = dict(quick="index arithmetic: unbounded ints; layout grid: sizes [1,1],
 
 def queries(tier, seed=0):
     qs = [dict(kind='idx')]
-    sizes = [[1, 1], [2, 1], [1, 2, 1]] + ([[3, 1], [1, 1, 2, 1]] if tier != 'quick' else [])
+    sizes = [[1, 1], [2, 1], [1, 2, 1], [5, 1]] + ([[3, 1], [1, 1, 2, 1]] if tier != 'quick' else [])
     sop = [(1, 1, 1), (2, 2, 1), (3, 2, 2)] + ([(2, 3, 3)] if tier != 'quick' else [])
     extra = [None, (2, 3)] + ([(0, 1), (4, 0)] if tier != 'quick' else [])
     for sz in sizes:
